@@ -5,7 +5,7 @@ from vf import q, qlist, clist, cbool, cnat, copt, frac, fr_json
 
 ID = 'C02'
 COQ_DIR = 'C02'
-COQ_HEADER = 'From V Require Import Common.Num C02.Model C02.ModelX.\nOpen Scope Q_scope.'
+COQ_HEADER = 'From V Require Import Common.Num C02.Model C02.ModelX C02.ModelS.\nOpen Scope Q_scope.'
 RULE = ('stub property package of three user-defined chemicals whose mixture H / Cn models are exact and phase dependent: '
         'H = sum n_i Cn_i (T - 298.15) with Cn = 64, 32, 128 in l/L/s/S and H = sum n_i (Cn_i (T - 298.15) + L_i) with Cn = 32, 16, 64, '
         'L = 8192, 4096, 16384 in g, plus a pressure term n k (P - 101325)/1024 in every phase (so that WHEN an inlet is read matters); S is '
@@ -23,7 +23,11 @@ RULE = ('stub property package of three user-defined chemicals whose mixture H /
         'inlet, a MultiStream over any of 11 phase sets, into a MultiStream receiver over another / a compatible / the same phase set, so that '
         'MaterialIndexer.copy_like runs its expansion, renaming and identical-indexer branches, then H += Q), copy (copy_like called directly on every '
         'pair of classes and phase sets, also on itself), mixcp (mix_from(conserve_phases=True), real and scripted solver, all stream shapes, Heat / None '
-        'among the inlets); every mix / mixs case is evaluated with ModelX.mix_from_x.  Compared: every stream of the store afterwards (class, '
+        'among the inlets), wseq (HISTORIES OF TEMPERATURE SOLVES in one process on one mixture: 2-5 calls of one of the four Mixture.(x)solve_T_at_HP/SP '
+        'wrappers whose extensive scale differs by up to 2^22 from one call to the next, Cn depending on T or not, a driver in place of flexsolve.aitken that '
+        'really calls the iteration function 0-7 times with relaxation weights, scripted secant; per solve: result / exception, number of model evaluations, '
+        'number of Cn evaluations and the last Cn handed out, i.e. the content of the solve\'s scratch list, evaluated with ModelS.solve_seq); '
+        'every mix / mixs case is evaluated with ModelX.mix_from_x.  Compared: every stream of the store afterwards (class, '
         'phases, flows per phase exactly, T to 1e-9, P exactly), H of every stream to 1e-9, exception class.  non-trivial = the '
         'operation changed the store (or returned a value / raised); distinct = distinct case hash')
 ASSUMPTIONS = [
@@ -48,6 +52,8 @@ TRUSTED = [
     '_stream.py mix_from(conserve_phases=True); tie = correspondence (kinds mix, mixs, copy, mixcp)',
     'streams of a second property package (same chemicals, other order and another Chemicals object) are compared in the coordinates of the first; '
     'packages with chemicals the receiver lacks: C01',
+    'coq/C02/ModelS.v is hand-written from mixture.py (the four solve wrappers with the allocation of their [counter, Cn] list, the four '
+    'iteration functions mutating it); flexsolve.aitken is represented by relaxed fixed-point drivers; tie = correspondence (kind wseq)',
     'vle=True argument of mix_from is not modelled (the VLE solver is C08 / C15 territory)',
 ]
 
@@ -551,6 +557,28 @@ def gen_hist(rng):
             else: use(h)
     return {'kind': 'hist', 'streams': streams, 'ops': ops}
 
+WSEQ_W = [1, 1, 1, F(1, 2), F(3, 4), 2, F(1, 4)]
+WSEQ_SCALE = [F(1, 1024), F(1, 64), F(1, 4), 1, 1, 4, 64, 1024, 4096]
+def gen_wseq(rng):
+    """a history of temperature solves made one after the other in one process on one mixture object, through one of the four
+    wrappers, with extensive scales (total flow) that differ by orders of magnitude from one solve to the next; the driver
+    standing for flexsolve.aitken really calls the iteration function (relaxed fixed-point steps)"""
+    var = rng.choice(['H', 'S', 'S', 'xH', 'xS'])
+    ent = var[-1] == 'S'
+    ea, eb = rng.choice([(1, 1), (1, 1), (1, 1), (2, 2), (1, 2), (2, 1)])
+    reqs = []
+    for _ in range(rng.randint(2, 5)):
+        a = rng.choice([F(1, 4), F(1, 2), 1, 2])
+        if ent: c = a * rng.choice([64, 128, 256])          # keeps the stand-in exponential's argument of order one
+        else: c = rng.choice([a, a, 2 * a, a / 2, 64])
+        if rng.random() < 0.06: c = 0                        # Cn = 0: ZeroDivisionError inside the iteration
+        d = rng.choice([0, 0, F(1, 4), F(1, 64)]) if c else 0
+        reqs.append({'F': float(rng.choice(WSEQ_SCALE)), 'a': float(a), 'b': float(rng.choice([0, 8, -8, 64])), 'c': float(c), 'd': float(d),
+                     'ws': [float(rng.choice(WSEQ_W)) for _ in range(rng.randint(0, 5 if ent else 7))],
+                     'Tguess': float(rng.choice(TS)), 'Tt': float(rng.choice(TS)), 'secant': float(rng.choice(TS)),
+                     'secant_raises': rng.random() < 0.2, 'phase': rng.choice('lg'), 'P': rng.choice(PS)})
+    return {'kind': 'wseq', 'var': var, 'ea': float(ea), 'eb': float(eb), 'reqs': reqs}
+
 def gen_cases(rng, tier):
     n = 1 if tier == 'quick' else 12
     cases = []
@@ -567,6 +595,7 @@ def gen_cases(rng, tier):
     cases += [gen_mixmm(rng, rng.random() < 0.2) for _ in range(70 * n)]
     cases += [gen_copy(rng) for _ in range(50 * n)]
     cases += [gen_mixcp(rng, rng.random() < 0.25) for _ in range(60 * n)]
+    cases += [gen_wseq(rng) for _ in range(40 * n)]
     return cases
 
 # ------------------------------------------------------------------ implementation side
@@ -881,6 +910,65 @@ def run_hist(case, check):
     out['handles_agree'] = all(snap(objs[h]) == out['final'][c] for h, c in enumerate(cell)) if not out.get('stopped') else True
     return (out, None)
 
+def wseq_target(case, r):
+    return r['F'] * (r['a'] * r['Tt'] + r['b'])
+
+def run_wseq(case):
+    """the requests of the case, one after the other, through ONE wrapper of ONE throw-away Mixture whose H / S / Cn are
+    mol * (a T + b) and mol * (c + d T) (mol is the scale; the x-wrappers get it split over two phases); flexsolve.aitken is a
+    driver that calls the iteration function once per weight.  Observed per solve: result / exception, how many times the
+    H / S model and the Cn model were evaluated, the last Cn returned."""
+    mm = _env['mm']
+    var = case['var']; x = var.startswith('x'); nph = 2 if x else 1
+    cur = {}; log = {'X': 0, 'Cn': []}
+    class M(mm.Mixture):
+        __slots__ = ('_free_energy_args',)
+        def __init__(self): self._free_energy_args = {}
+        def _load_free_energy_args(self, phase, mol, T, P): self._free_energy_args[phase] = ('eos', mol, T, P)
+        def _load_xfree_energy_args(self, phase_mol, T, P):
+            for phase, mol in phase_mol: self._free_energy_args[phase] = ('eos', mol, T, P)
+        def H(self, phase, mol, T, P): log['X'] += 1; return mol * (cur['a'] * T + cur['b'])
+        def S(self, phase, mol, T, P): log['X'] += 1; return mol * (cur['a'] * T + cur['b'])
+        def Cn(self, phase, mol, T, P=None):
+            v = mol * (cur['c'] + cur['d'] * T); log['Cn'].append(v); return v
+    class Driver:
+        @staticmethod
+        def aitken(f, x0, xtol, args, maxiter, checkiter=False):
+            for w in cur['ws']: x0 = x0 + w * (f(x0, *args) - x0)
+            return x0
+        @staticmethod
+        def aitken_secant(f, x0, x1, xtol, ytol):
+            if cur['secant_raises']: raise RuntimeError('scripted aitken_secant: no convergence')
+            return cur['secant']
+    m = M()
+    saved, saved_exp = mm.flx, mm.exp
+    mm.flx = Driver
+    mm.exp = lambda y: (case['ea'] + y) / case['eb']
+    out = {'err': None, 'solves': []}
+    left = 0
+    try:
+        f = getattr(m, ('xsolve_T_at_' if x else 'solve_T_at_') + var[-1] + 'P')
+        for r in case['reqs']:
+            cur.clear(); cur.update(r); log['X'] = 0; log['Cn'] = []
+            args = ((('l', r['F'] / 4.), ('g', 3. * r['F'] / 4.)),) if x else ('l', r['F'])
+            o = {'err': None}
+            try:
+                T = f(*args, wseq_target(case, r), r['Tguess'], 101325.)
+                o['T'] = fr_json(frac(T))
+            except Exception as ex:
+                o['err'] = err_of(ex); o['exc'] = f'{type(ex).__name__}: {ex}'[:120]
+            cn = log['Cn']
+            o['n'] = log['X'] // nph if log['X'] % nph == 0 else -1
+            o['ncn'] = len(cn) // nph if len(cn) % nph == 0 else -1
+            try: o['cn'] = fr_json(frac(sum(cn[-nph:]))) if cn else None
+            except Exception: o['cn'] = 'nan'
+            left = max(left, len(m._free_energy_args))
+            out['solves'].append(o)
+    finally:
+        mm.flx, mm.exp = saved, saved_exp
+    out['left'] = left
+    return out
+
 def run_impl(case):
     e = env(); mm = e['mm']
     k = case['kind']
@@ -951,6 +1039,8 @@ def run_impl(case):
         return out
     if k == 'wrap':
         return run_wrap(case)
+    if k == 'wseq':
+        return run_wseq(case)
     if k == 'hist':
         return run_hist(case, check=False)[0]
     if k == 'imodel':
@@ -985,6 +1075,17 @@ def cinlet(o):
 def cres(err, ok):
     return f'(Err {err})' if err else f'(Ok {ok})'
 
+def creq(case, r):
+    Fq, a, b, c, d = (q(r[x]) for x in ('F', 'a', 'b', 'c', 'd'))
+    Xm = f'(fun T => {Fq} * ({a} * T + {b}))'
+    Cm = f'(fun T => {Fq} * ({c} + {d} * T))'
+    X = q(F(r['F']) * (F(r['a']) * F(r['Tt']) + F(r['b'])))
+    if case['var'][-1] == 'H': g = f'(formula_HP {X} {Xm})'
+    else: g = f'(formula_SP (fun y => ({q(case["ea"])} + y) / {q(case["eb"])}) {X} {Xm})'
+    sec = 'Err ERuntime' if r['secant_raises'] else f'Ok {q(r["secant"])}'
+    loaded = '[4%nat; 3%nat]' if case['var'].startswith('x') else '[4%nat]'
+    return f'(mkReq {g} {Cm} {qlist(r["ws"])} (fun _ _ => {sec}) {q(r["Tguess"])} {loaded})'
+
 def model_term(case, out):
     k = case['kind']
     O = coracles(case)
@@ -1017,6 +1118,8 @@ def model_term(case, out):
         if var[-1] == 'H':
             return f'(solve_T_at_HP_ws {loaded} {common})'
         return f'(solve_T_at_SP_ws {loaded} (fun y => ({q(case.get("ea", 1.))} + y) / {q(case.get("eb", 1.))}) {common})'
+    if k == 'wseq':
+        return f'(solve_seq (1 # 1000000) ([], []) {clist([creq(case, r) for r in case["reqs"]])})'
     if k == 'imodel':
         ms = clist([f'(fun (p : phase) (T P : Q) => {q(a)} * T + {q(b if case["var"] != "T" else 0.)} * P / 1024 + '
                     f'(if (p =? 3)%nat then {q(c)} else 0))' for a, b, c in case['models']])
@@ -1101,6 +1204,12 @@ def coq_case(case, out):
     if k == 'wrap':
         exp = cres(out['err'], q(F(out['T'])) if not out['err'] else '')
         return f'(ws_eqb {t} {exp} {cnat(out["left"])})'
+    if k == 'wseq':
+        exp = []
+        for o in out['solves']:
+            if o['n'] < 0 or o['ncn'] < 0 or o['cn'] == 'nan': return 'false'
+            exp.append(f'({cres(o["err"], q(F(o["T"])) if not o["err"] else "")}, ({cnat(o["n"])}, {copt(o["cn"], lambda v: q(F(v)))}), {cnat(o["ncn"])})')
+        return f'(wseq_check (1 # 1000000) {clist([creq(case, r) for r in case["reqs"]])} {clist(exp)} {cnat(out["left"])})'
     if k == 'imodel':
         return 'false' if out['err'] else f'(qapproxb {t} {q(F(out["v"]))})'
     if k == 'hist':
@@ -1158,6 +1267,14 @@ def classify(case, out):
         ks.append('iter:' + case['var'])
     if k == 'wrap':
         ks.append('wrap:' + case.get('var', 'H') + ':' + '+'.join(out.get('calls', [])) + (':raises' if out.get('err') else ''))
+    if k == 'wseq':
+        ks.append('wseq:' + case['var'])
+        fs = [r['F'] for r in case['reqs']]
+        if any(max(a, b) / min(a, b) >= 256 for a, b in zip(fs, fs[1:])): ks.append('wseq:scale-jump>=256')
+        if any(a < b for a, b in zip(fs, fs[1:])): ks.append('wseq:small-then-large')
+        for o in out.get('solves', []):
+            ks.append('wseq:solve:' + (o['err'] or 'ok')); ks.append('wseq:Cn-evaluations:%d' % o['ncn'])
+        if any(r['d'] for r in case['reqs']): ks.append('wseq:Cn(T)')
     if k == 'imodel':
         ks.append('imodel:' + case['var'] + (':total=1' if sum(case['mol']) == 1 else ':total!=1'))
     if k == 'hist':
@@ -1313,7 +1430,47 @@ def oracle(case):
         return None
     if k == 'eos':
         return oracle_eos(case)
+    if k == 'wseq':
+        return oracle_wseq(case)
     return None
+
+WSEQ_COMP = {'l': [3., 2., .5], 'g': [3., 2., .5]}
+def oracle_wseq(case):
+    """the read-back clause on a HISTORY of assignments: the case's requests as H / S assignments, one after the other, on
+    database-package streams (Water, Ethanol, Nitrogen) of the case's scales; every target is the stream's own value at a
+    temperature in range, so it is reachable in the phase the stream is in.  Each assignment must read back, keep the phase
+    and land on the temperature the target was taken at -- whatever was solved before it."""
+    e = env_real(); tmo = e['tmo']
+    try:
+        w = case['var'][-1]
+        done = []
+        for i, r in enumerate(case['reqs']):
+            Fs = r['F']
+            Tt = 280. + (r['Tt'] - 300.) * (0.7 if r['phase'] == 'l' else 1.7)     # l: 280-350 K, g: 280-450 K
+            T0 = 280. + (r['Tguess'] - 300.) * (0.7 if r['phase'] == 'l' else 1.7)
+            if case['var'].startswith('x'):
+                d = {'multi': True, 'rows': {'g': [0., 0., 2. * Fs], 'l': [3. * Fs, 2. * Fs, 0.]}, 'T': Tt, 'P': r['P']}
+            else:
+                d = {'multi': False, 'rows': {r['phase']: [x * Fs for x in WSEQ_COMP[r['phase']]]}, 'T': Tt, 'P': r['P']}
+            s = build_stream(d)
+            target = getattr(s, w)
+            s.T = T0
+            ph0 = s.phases
+            where = (f'solve-history: {w} assignment #{i + 1} of a sequence (total flow {s.F_mol:g} kmol/hr, {"/".join(ph0)}, '
+                     f'{T0:g} -> {Tt:g} K, P={r["P"]:g}) after assignments on streams of scale {done}')
+            try:
+                setattr(s, w, target)
+            except Exception as ex:
+                return f'{where} raised {type(ex).__name__}: {str(ex)[:100]}'
+            back = getattr(s, w)
+            if s.phases != ph0:
+                return f'{where} changed the phase to {"/".join(s.phases)} at T={s.T:.3f} K'
+            if not close(back, target, 1e-5) or abs(s.T - Tt) > 0.05:
+                return f'{where} assigned {target!r}, reads back {back!r} at T={s.T:.4f} K'
+            done.append(Fs)
+        return None
+    finally:
+        env()
 
 def env_eos():
     """an equation-of-state package (Peng-Robinson), whose mixture keeps per-solve work-space; search step only"""
@@ -1418,6 +1575,8 @@ def search_cases(rng, tier):
         cases.append(c)
     for _ in range(60):
         cases.append(gen_mix(rng, False))
+    for _ in range(30 if tier == 'quick' else 300):
+        cases.append(gen_wseq(rng))          # oracle: histories of H / S assignments on database streams of these scales
     return cases
 
 WITNESS_C02_4 = {'kind': 'hist', 'streams': [{'multi': True, 'rows': {'g': [1., 0., 4.], 'l': [0., 0., 0.]}, 'T': 350., 'P': 101325.}],
